@@ -471,8 +471,8 @@ def tl_jobs(prop):
     return jobs
 
 
-TL_NOTE = ("version graph from gen/tables.py: pool of 3 entries (id 0 string|W1<string>, id 1 vector<int32>|array<int32,2>, "
-           "id 128 uint64|W1<uint64>), versions = ordered lists of (entry, active T | active twin | deleted), explored "
+TL_NOTE = ("version graph from gen/tables.py: pool of 3 entries (id 0 string|W1<string>, id 128 vector<int32>|array<int32,2>, "
+           "id 2^32+1 uint64|W1<uint64>), versions = ordered lists of (entry, active T | active twin | deleted), explored "
            "breadth-first over the evolution steps add / remove / mark deleted / swap adjacent / retype to the fungible twin "
            "to fixpoint: 226 versions (225 declarable C++ types + the empty table), 2187 edges")
 
@@ -485,7 +485,7 @@ CHECKS["C07"] = dict(
                "vector element and entry of an outer table; a sentinel value follows on the same stream. Reference model: "
                "read succeeds, entries active on both sides carry the value across (compared through independent bridges), "
                "every other reader entry is empty, the sentinel is read next, the reader ends exactly at the end",
-    level_note=TL_NOTE + "; writer bytes are additionally compared with the reference encoder; ids on the POS/U8 class boundary",
+    level_note=TL_NOTE + "; writer bytes are additionally compared with the reference encoder; ids in the POS, U8 and U64 classes",
     technique="explicit-state model checking: BFS over schema-evolution histories (model) + every model pair replayed against the implementation",
     rule="states = table versions, transitions = evolution edges, traces_validated_against_impl = (writer, reader, assignment, "
          "context, reader rig) executions compared with the evolution model",
